@@ -6,6 +6,7 @@ carries "the name means its qelib1 / documented operator" to the macro text.
 -/
 import Qvnt.Props.C09
 import Qvnt.Props.C12
+import Qvnt.Lemmas.IntLogic
 import Qvnt.Lemmas.GenGates
 
 namespace Qvnt
@@ -55,6 +56,20 @@ theorem C09_code_arm_no_panic (name : String) (row : Row) (hrow : row ∈ gateTa
   | ok o => exact Or.inl ⟨o, rfl⟩
   | err e => exact Or.inr ⟨e, rfl, rfl⟩
   | panic s => exact absurd hh (h s)
+
+/-- **a plain table name runs its translated arm**: for a name without control prefix that the regenerated table lists
+(in either case), what `gates::process` returns (model of the name dispatch, tied by the table and the prefix-arm text)
+is what the translated macro arm of the row's kind returns for the row's constructor; a name the table does not list is
+`UnknownGate` -/
+theorem C09_code_plain (name : String) (regs : List Nat) (args : List R) (hn : isCtl name = false) :
+    (Gates.process name regs args).toE =
+      match tableRow name with
+      | some row => armOfRow name row regs args
+      | none => .error (.unknownGate name) := by
+  rw [process_plain name regs args hn]
+  cases h : tableRow name with
+  | some row => simp only []; rw [C09_code_arms]
+  | none => rfl
 
 end
 end Qvnt
